@@ -18,6 +18,8 @@ HARNESS = {
             'call': 'check_c15(&buf[..len], off)', 'unwind': 10},
     'c09': {'args': [('buf', 'u8x12'), ('len', 'usize'), ('idx', 'usize'), ('little', 'bool')], 'bound': 'table <= 12 bytes (u32 entries)', 'assume': 'len <= 12',
             'call': 'check_c09(&buf[..len], idx, little)', 'unwind': 6},
+    'c09_len': {'args': [('buf', 'u8x24'), ('len', 'usize'), ('little', 'bool')], 'bound': 'table <= 24 bytes (u32 entries and Rel/ELF32 entries)', 'assume': 'len <= 24',
+                'call': 'check_c09_len(&buf[..len], little)', 'unwind': 2},
     'c10': {'args': [('ident', 'u8x16')], 'bound': 'none (all 16-byte idents)', 'assume': 'true', 'call': 'check_c10(&ident)', 'unwind': 6},
     'hash': {'args': [('buf', 'u8x5'), ('len', 'usize')], 'bound': 'name <= 5 bytes', 'assume': 'len <= 5', 'call': 'check_hash(&buf[..len])', 'unwind': 7},
 }
@@ -171,7 +173,8 @@ def search(harness, timeout=420):
 PAIRING = [
     (r'^C04\.(u8|u16|u32|u64|i32|i64)\.', lambda m: 'c04_' + m.group(1)),
     (r'^C15\.get_raw\.', lambda m: 'c15'),
-    (r'^C09\.(len_is_floor|is_empty_iff_len0|get\.|next\.|iter)', lambda m: 'c09'),
+    (r'^C09\.(len_is_floor|is_empty_iff_len0)', lambda m: 'c09_len'),
+    (r'^C09\.(get\.|next\.|iter)', lambda m: 'c09'),
     (r'^C10\.(verify_ident|parse_ident|from_ei_data)\.', lambda m: 'c10'),
     (r'^(C12\.sysv_hash|C11\.gnu_hash|proof:hash::sysv_hash|proof:hash::gnu_hash)', lambda m: 'hash'),
     (r'^C02\.parse_at\.[a-z_]+@ParseAt for (\w+)::parse_at$', lambda m: 'c02_' + m.group(1).lower()),
